@@ -6,7 +6,7 @@ cd /verif
 git -C /repo diff --quiet || { echo "/repo has uncommitted changes"; exit 2; }
 git -C /repo apply "$P" || { echo "patch does not apply"; exit 2; }
 trap 'git -C /repo checkout -- . ; git -C /repo status --short | grep -v _build' EXIT
-if sh tools/run_baseline.sh >/dev/null 2>&1; then echo "baseline: PASS (mutant survives the repository's tests)"; else echo "baseline: FAIL (mutant is caught by the existing tests)"; fi
+if timeout 300 sh tools/run_baseline.sh >/dev/null 2>&1; then echo "baseline: PASS (mutant survives the repository's tests)"; else echo "baseline: FAIL (mutant is caught by the existing tests)"; fi
 for id in "$@"; do
   out=$(VERIF_TIER=${TIER:-quick} ./check run $id --tier ${TIER:-quick} 2>&1); rc=$?
   echo "== $id exit=$rc"; echo "$out" | grep -E "^VIOLATION|message=|KNOWN|^C[0-9]+ " | head -${LINES_MAX:-4}
